@@ -52,9 +52,19 @@ type BMethod struct {
 	Params   []int  `json:"params"`   // type indexes of the ordinary parameters
 	Variadic int    `json:"variadic"` // slice type index of the variadic parameter, or -1
 	Results  []int  `json:"results"`
+	// where this method's parameter names start in the pool of ordinary names
+	Salt int `json:"salt"`
 }
 
-func (m BMethod) paramName(i int) string { return fmt.Sprintf("a%d", i) }
+// ordinary parameter names a user might write: none of them is declared by a template of the unchanged tree, by
+// the drivers or by Go itself; a template that starts to declare one of them in the scope of the parameters captures it
+var bParamNames = []string{"fn", "f", "v", "val", "key", "cb", "handler", "in", "out", "x", "n", "s", "p", "item", "opts", "data", "buf", "dst", "src", "w", "q", "k", "lock", "info", "call", "res", "result", "e", "fnc", "a0", "a1"}
+
+func (m BMethod) paramName(i int) string { return bParamNames[(m.Salt+i)%len(bParamNames)] }
+
+// every generated method starts one name further in the pool: each name is some method's first, second and third
+// parameter within a few cases, whatever the seed
+var bSalt int
 
 // all parameter type indexes in order (the variadic one as its slice type)
 func (m BMethod) allParams() []int {
@@ -104,7 +114,8 @@ func bNamesFor(r *rand.Rand, i int) []string {
 }
 
 func genBMethod(r *rand.Rand, name string) BMethod {
-	m := BMethod{Name: name, Variadic: -1, Params: []int{}, Results: []int{}}
+	m := BMethod{Name: name, Variadic: -1, Params: []int{}, Results: []int{}, Salt: bSalt}
+	bSalt++
 	np := r.Intn(4)
 	for i := 0; i < np; i++ {
 		m.Params = append(m.Params, r.Intn(len(bTypes)))
